@@ -22,13 +22,23 @@ pub struct ActorModelState<A: Actor, H = ()> {
 }
 
 /// Represents a set of random choices for one actor.
-#[derive(Clone, Debug, Serialize)]
+#[derive(Clone, Debug, Eq, Hash, PartialEq, Serialize)]
 pub struct RandomChoices<Random> {
     /// The map of random choices for an actor.
     ///
     /// The string key is the key given in [`Actor::choose_random`], and the value vec contains the
     /// possible random choices to select from.
     pub map: HashableHashMap<String, Vec<Random>>,
+}
+
+/// The pending random choices up to (and excluding) the trailing actors that have none: an absent
+/// entry and an empty one behave alike, so neither takes part in a state's identity.
+fn pending_choices<Random>(choices: &[RandomChoices<Random>]) -> &[RandomChoices<Random>] {
+    let mut cutoff = choices.len();
+    while cutoff > 0 && choices[cutoff - 1].map.is_empty() {
+        cutoff -= 1;
+    }
+    &choices[..cutoff]
 }
 
 impl<Random> Default for RandomChoices<Random> {
@@ -141,6 +151,8 @@ where
         self.history.hash(state);
         self.timers_set.hash(state);
         self.network.hash(state);
+        self.crashed.hash(state);
+        pending_choices(&self.random_choices).hash(state);
     }
 }
 
@@ -157,6 +169,8 @@ where
             && self.history.eq(&other.history)
             && self.timers_set.eq(&other.timers_set)
             && self.network.eq(&other.network)
+            && self.crashed.eq(&other.crashed)
+            && pending_choices(&self.random_choices).eq(pending_choices(&other.random_choices))
     }
 }
 
